@@ -215,9 +215,16 @@ def audit(prop, extra=()):
     """Builds the Props modules of a property and runs its Audit files (`#print axioms` for every
     property theorem).  Returns dict(obligations, discharged, theorems={name: axioms|None}, ok, log)."""
     mods = audit_files(prop, extra)
-    ok, out = lake_build(["AcmedVerif.Props.%s" % m for m in mods] + ["acmed_model"])
+    # the theorem modules are whatever the audit files import (normally Props/<same name>)
+    props = []
+    for m in mods:
+        with open(os.path.join(LEAN, "AcmedVerif", "Audit", m + ".lean")) as f:
+            for imp in re.findall(r"^import\s+(AcmedVerif\.Props\.\S+)", strip_comments(f.read()), re.M):
+                if imp not in props:
+                    props.append(imp)
+    ok, out = lake_build(props + ["acmed_model"])
     res = {"obligations": 0, "discharged": 0, "theorems": {}, "ok": False, "log": out[-6000:],
-           "forbidden": [], "modules": mods}
+           "forbidden": [], "modules": mods, "prop_modules": props}
     names = []
     for m in mods:
         with open(os.path.join(LEAN, "AcmedVerif", "Audit", m + ".lean")) as f:
@@ -407,7 +414,7 @@ class Ctx:
         self.audit = a
         if a["ok"] and self.tier == "thorough":
             # independent re-check of the compiled theorem modules by Lean's external checker
-            ok, outs = leanchecker(["AcmedVerif.Props.%s" % m for m in a.get("modules", [])])
+            ok, outs = leanchecker(a.get("prop_modules", []))
             a["leanchecker"] = {"ok": ok, "modules": outs}
             if not ok:
                 self.broke("proof", "leanchecker rejects a compiled module", {"leanchecker": outs})
